@@ -72,6 +72,9 @@ structure Observation where
   node : Nat
   /-- `some a`: this observes a circuit-controlled entity, which must be enabled iff `a > 0` -/
   enable : Option Arg := none
+  /-- `some m`: the producer is a constant of the final IR that the blueprint does not materialise (nothing reads it):
+  the "observation" is the constant the compiler claims for this name -/
+  claim : Option SigMap := none
   deriving Repr, Inhabited
 
 /-- an entity read through `.output`: Core entity number and blueprint index -/
@@ -124,7 +127,9 @@ def compareOnce (core : CoreProg) (circ : Circuit) (inputs : List InputBinding) 
   let contents : List (String × Int) := srcs.flatMap (fun (b, m) => (SigMap.sorted m).map (fun (k, v) => (s!"entity{b.ent}.{k}", v)))
   obs.filterMap (fun o =>
     let w := renameMap ren (want.getD o.node [])
-    let seen (g : Nat → SigMap) : SigMap := if o.atAnchor then circ.observe g o.idx else g o.idx
+    let seen (g : Nat → SigMap) : SigMap := match o.claim with
+      | some m => m
+      | none => if o.atAnchor then circ.observe g o.idx else g o.idx
     let (e, g, g') := match o.enable with
       | some a =>
         let expectOn := (argVal core.nodes want a).toInt > 0
@@ -269,7 +274,9 @@ def searchHistory (core : CoreProg) (circ : Circuit) (inputs : List InputBinding
         let want := evalNodes core.nodes env1
         obs.filterMap (fun o =>
           let w := renameMap ren (want.getD o.node [])
-          let seen : SigMap := if o.atAnchor then circ.observe g o.idx else g o.idx
+          let seen : SigMap := match o.claim with
+            | some m => m
+            | none => if o.atAnchor then circ.observe g o.idx else g o.idx
           let (e, got) := match o.enable with
             | some a =>
               let expectOn := (argVal core.nodes want a).toInt > 0
@@ -313,7 +320,9 @@ def iterateCheck (core : CoreProg) (circ : Circuit) (inputs : List InputBinding)
   let trace : List I32 := ((List.range total).foldl (fun (acc : List I32 × Array SigMap) _ =>
       let outs := acc.2
       let g : Nat → SigMap := fun p => outs.getD p []
-      let seen : SigMap := if o.atAnchor then circ.observe g o.idx else g o.idx
+      let seen : SigMap := match o.claim with
+        | some m => m
+        | none => if o.atAnchor then circ.observe g o.idx else g o.idx
       let v := match o.sig with | some sg => seen.get sg | none => 0
       (acc.1 ++ [v], circ.stepA inp outs)) ([], circ.initA inp)).1
   let ok (L : Nat) : Bool := (List.range window).all (fun t => trace.getD (t + L) 0 == f (trace.getD t 0))
